@@ -45,6 +45,8 @@ class Task:
             self.exc = e
         self.done = True
         self.blocked_on = None
+        if self.hub.primlog is not None and getattr(self, 'proc', None) is not None:
+            self.hub.primlog.append({'t': self.proc, 'op': 'ret', 'item': None, 'q': None})
         for t in self.joiners:
             self.hub._make_ready(t, True)
         self.joiners = []
@@ -65,6 +67,7 @@ class Hub:
         self.preempt = preempt
         self.rng = random.Random(seed)
         self.switches = 0
+        self.primlog = None          # list: one record per queue primitive / task return (L2)
 
     # ---- task management -----------------------------------------------------------
     def spawn(self, fn, *args, name=None, **kwargs):
@@ -226,9 +229,15 @@ class Queue:
     def empty(self):
         return not self.items
 
+    def _log(self, op, item=None):
+        lg = _hub.primlog
+        if lg is not None:
+            lg.append({'t': getattr(_hub.current, 'proc', None), 'op': op, 'item': item, 'q': self})
+
     def put(self, item, block=True, timeout=None):
         self.items.append(item)
         self.unfinished_tasks += 1
+        self._log('put', item)
         if self.waiters:
             w = self.waiters.pop(0)
             _hub._make_ready(w, None)
@@ -238,11 +247,15 @@ class Queue:
         self.put(item)
 
     def get(self, block=True, timeout=None):
+        if block:
+            self._log('get_enter')
         _hub.yield_point()
         deadline = None if timeout is None else _hub.now + timeout
         while True:
             if self.items:
-                return self.items.pop(0)
+                x = self.items.pop(0)
+                self._log('get', x)
+                return x
             if not block:
                 raise Empty()
             if deadline is not None and _hub.now >= deadline and timeout > 0:
@@ -252,7 +265,9 @@ class Queue:
                             None if deadline is None else max(0.0, deadline - _hub.now))
             if v is TIMEOUT:
                 if self.items:
-                    return self.items.pop(0)
+                    x = self.items.pop(0)
+                    self._log('get', x)
+                    return x
                 raise Empty()
             # woken by a put; if another task took the item first, wait again
 
@@ -263,6 +278,7 @@ class Queue:
         if self.unfinished_tasks <= 0:
             raise ValueError('task_done() called too many times')
         self.unfinished_tasks -= 1
+        self._log('task_done')
         if self.unfinished_tasks == 0:
             ws, self.join_waiters = self.join_waiters, []
             for w in ws:
@@ -274,6 +290,7 @@ class Queue:
         while self.unfinished_tasks:
             self.join_waiters.append(_hub.current)
             _hub._block(('qjoin', self))
+        self._log('join_ret')
 
 
 class Event:
